@@ -40,7 +40,7 @@ def showFileId : FileId → String
   | .seeds => "seeds" | .hashes => "hashes" | .infra => "infra" | .count => "count" | .ts => "ts"
 
 def showStep : Step → String
-  | .wrSeeds n => s!"S{n}"
+  | .wrSeeds l => s!"S{l.length}"
   | .wrHashes _ => "H"
   | .wrInfra _ => "I"
   | .wrEmis i _ => s!"E{i}"
@@ -49,7 +49,7 @@ def showStep : Step → String
   | .rm f => s!"rm:{showFileId f}"
 
 def showDisk (b : Nat) (d : Disk) : String :=
-  s!"seeds={showFile toString d.seeds} hashes={showFile showStore d.hashes} infra={showFile showGen d.infra} " ++
+  s!"seeds={showFile (fun (l : List Draw) => "<" ++ ";".intercalate (l.map fun x => s!"{x.1}.{x.2}") ++ ">") d.seeds} hashes={showFile showStore d.hashes} infra={showFile showGen d.infra} " ++
   s!"count={showFile toString d.count} ts={showFile (fun (p : Nat × Nat) => s!"{p.1}.{p.2}") d.ts} " ++
   "emis=" ++ showList (fun i => showFile showGen (d.emis i)) (List.range b)
 
@@ -119,7 +119,7 @@ def showTbl (t : Tbl) : String :=
   s!"hashedFresh={pr t.hashedFresh} hashedRegen={pr t.hashedRegen} compared={pr t.compared} " ++
   s!"required={showList showFileId t.required} freshOps={showList showIOp t.freshOps} " ++
   s!"regenOps={showList showIOp t.regenOps} emisRegen={showList showPhase t.emisRegen} " ++
-  s!"emisExtend={showList showPhase t.emisExtend} tsExact={showBool t.tsExact}"
+  s!"emisExtend={showList showPhase t.emisExtend} tsExact={showBool t.tsExact} seedRestart={showBool t.seedRestart} hashWholeFile={showBool t.hashWholeFile}"
 
 def step (_ : Unit) (toks : List String) : Unit × String :=
   match toks with
